@@ -102,7 +102,15 @@ def judge(ctx, c, r):
         return 0
     f = r.split(' ', 7)
     prc, nd, grc, nfiles, sout, leak = f[1], int(f[2]), f[3], int(f[4]), int(f[5]), int(f[6])
-    if prc == 'noctx': return 0
+    if prc == 'noctx':
+        # flatcc_create_context refused the options: it must say why and release everything it allocated
+        if leak:
+            site = re.search(r'LEAKSITE=(\S+)', r)
+            ctx.violation('leak:create-context:%s' % (site.group(1) if site else '?'), 'flatcc_create_context returned null for options %s but left memory allocated (allocated in %s)' % (
+                c['opts'].split(',inpath')[0], site.group(1) if site else '?'), replay_of(c, r))
+        if nd == 0:
+            ctx.violation('create-failure-without-diagnostic', 'flatcc_create_context returned null for options %s without reporting a diagnostic' % c['opts'].split(',inpath')[0], replay_of(c, r))
+        return 0
     prc = int(prc)
     if leak:
         site = re.search(r'LEAKSITE=(\S+)', r)
@@ -237,6 +245,42 @@ def run(ctx):
         for cut in range(len(b) + 1):
             add_buf('many_error_truncation', b[:cut], opts='cgen_reader=1', gen=2)
         add_file('many_error_truncation', {'a.fbs': 'include "b.fbs";\ntable A { x:int; }\n', 'b.fbs': text[:len(text) * 2 // 3]}, 'a.fbs', 'reject', opts='cgen_reader=1', gen=2)
+    # ---- 4c: explicit ids on the vtable boundary (field_marker / field_index are heap arrays of vt_max_count entries), default and small limits
+    for vt in (None, 3, 8, 100, 65534):
+        N = cons['vt_max'] if vt is None else vt
+        for idv in sorted({0, 1, N - 2, N - 1, N, N + 1, N + 2, 65533, 65534, 65535, 65536, 2 ** 32 - 1, 2 ** 32, 2 ** 63, 2 ** 64 - 1}):
+            if idv < 0: continue
+            o = 'cgen_reader=1' + ('' if vt is None else ',vt_max_count=%d' % vt)
+            add_buf('id_boundary', 'table T { a:int (id: %d); }\n' % idv, opts=o, gen=2)
+            add_buf('id_boundary', 'table X { a:int; }\nunion U { X }\ntable T { u:U (id: %d); }\n' % idv, opts=o, gen=2)
+            add_buf('id_boundary', 'table X { a:int; }\nunion U { X }\ntable T { v:[U] (id: %d); b:int (id: 0); }\n' % idv, opts=o, gen=2)
+            if idv <= 70000:
+                add_buf('id_boundary', 'table T { %s z:int (id: %d); }\n' % (' '.join('f%d:int (id: %d);' % (k, k) for k in range(min(idv, 5))), idv), opts=o, gen=2)
+        for nf in (N - 1, N, N + 1):
+            if nf <= 200:
+                add_buf('id_boundary', 'table T { %s }\n' % ' '.join('f%d:int;' % k for k in range(nf)), opts='cgen_reader=1,vt_max_count=%d' % N, gen=2)
+                add_buf('id_boundary', 'table X { a:int; }\nunion U { X }\ntable T { %s u:U; }\n' % ' '.join('f%d:int;' % k for k in range(max(0, nf - 2))), opts='cgen_reader=1,vt_max_count=%d' % N, gen=2)
+    # ---- 4d: every numeric field of flatcc_options_t with invalid / extreme values: refused option sets (create returns null) must
+    #      report a diagnostic and release everything; accepted ones go through the full cycle
+    NUM_OPTS = ['max_schema_size', 'max_include_depth', 'max_include_count', 'disable_includes', 'allow_boolean_conversion', 'allow_enum_key',
+                'allow_enum_struct_field', 'allow_multiple_key_fields', 'allow_primary_key', 'allow_scan_for_all_fields', 'allow_string_key',
+                'allow_struct_field_deprecate', 'allow_struct_field_key', 'allow_struct_root', 'ascending_enum', 'hide_later_enum', 'hide_later_struct',
+                'offset_size', 'voffset_size', 'utype_size', 'bool_size', 'require_root_type', 'strict_enum_init', 'vt_max_count', 'gen_stdout', 'gen_dep',
+                'gen_append', 'cgen_pad', 'cgen_sort', 'cgen_pragmas', 'cgen_common_reader', 'cgen_common_builder', 'cgen_reader', 'cgen_builder',
+                'cgen_verifier', 'cgen_json_parser', 'cgen_json_printer', 'cgen_recursive', 'cgen_spacing', 'cgen_no_conflicts', 'cgen', 'bgen_bfbs',
+                'bgen_qualify_names', 'bgen_length_prefix']
+    ov_valid = valid_texts[1 % len(valid_texts)]
+    for name in NUM_OPTS:
+        vals = [-1, 0, 1, 2, 3, 4, 5, 7, 8, 16, 255, 65536, 2147483647, -2147483648]
+        if name in ('offset_size', 'voffset_size'): vals += [6, 9, 12, 32, 64]
+        if name == 'vt_max_count': vals = [0, 1, 2, 3, 4, 5, 7, 8, 16, 255, 65534, 65535, 65536]     # a table size: larger values only ask for that much memory
+        for v in (vals if (T or name in ('offset_size', 'voffset_size', 'utype_size', 'bool_size', 'vt_max_count')) else rng.sample(vals, 5)):
+            base = 'cgen_reader=1,' if not name.startswith(('cgen', 'bgen', 'gen_')) else ''
+            add_buf('option_fuzz', ov_valid, opts='%s%s=%d' % (base, name, v), gen=2)
+            if rng.random() < 0.3: add_buf('option_fuzz', 'table T { a:int }', opts='%s%s=%d' % (base, name, v), gen=2)
+    for _ in range(200 if T else 40):
+        picks = rng.sample(NUM_OPTS, rng.randint(2, 5))
+        add_buf('option_fuzz_combo', rng.choice(valid_texts), opts=','.join('%s=%d' % (n, rng.choice([-1, 0, 1, 2, 3, 4, 8, 9, 65535])) for n in picks), gen=2)
     # ---- 5: random bytes / token soup
     for _ in range(4000 if T else 1000):
         k = rng.random()
